@@ -58,6 +58,10 @@ def check(ctx):
     rule.import_clauses(ctx, "C01", lambda s_: C01.check_rx(s_, P), as_clause="d.timeout")
     # the station's own GAP polls are probes too: only addresses below HSA (<= 125) - clause a of C12
     rule.import_clauses(ctx, "C12", lambda s_: C12.check_next_gap_poll(s_, P), as_clause="a.range")
+    # "the DP scanner knows the answering peripherals with their ident numbers": the scanner's copy of the diagnostics header decoder
+    # must decode like the peripheral's (ident high byte first, every flag bit, master address) - clause d.header of C17
+    from rules import C17
+    rule.import_clauses(ctx, "C17", lambda s_: C17.check_siblings(s_, P), clauses=("d.header",), as_clause="b.pairing")
     for ty, cfg in APPS.items():
         fns = [f for f in P.crate_fns(CR) if f.kind == "assoc" and (f.j.get("self_ty") == ty) and not f.j.get("derived")]
         ctx.anchor("methods of " + ty, len(fns), 4)
